@@ -10,6 +10,39 @@ TRUST = ("Trusted base: go/ssa IR construction (x/tools v0.29.0), govc's SSA-to-
          "compose over the program tree. ")
 
 CLAIMS = {
+ 'C04': dict(
+  text="Deductive proof over every statement/expression evaluator of package vm (about 110 functions, contracts via shared templates): the last sentence of the property is literally the postcondition "
+       "runInfo.env == old(runInfo.env), proved on EVERY exit (normal, break/continue/return sentinel, error) of every run*/invoke* function against the same postcondition of its callees, so nesting to any depth follows by induction; "
+       "ctx/options are never changed; closures: the function body runner (funcExpr$1) runs in a fresh child of the captured scope (captures clause checked where the closure is created); name resolution and binding forms rest on the env contracts of C12 "
+       "(GetValue = nearest binding, SetValue = nearest or error, DefineValue = this scope). Frames: an evaluator changes only its activation's outgoing fields, environment contents and AST positions of nodes it allocated. "
+       "Not yet decided by contracts: WHICH scope each block body runs in (fresh child of the old scope) beyond what restoring implies, and that var/for-in/catch/params define in the current scope (planned via the activation trace).",
+  note=TRUST + "Assumed: AST well-formedness facts the parser guarantees (no typed-nil nodes, module names without dots, C-for init is a var/assignment); reflect calls other than Call/CallSlice/Select do not touch interpreter state; function values with the VM signature obey the VM-function protocol.",
+  technique="contract-based deductive verification: scope-restoration postcondition on every evaluator, VCs from go/ssa, z3/cvc5",
+  ref="4 C04"),
+ 'C08': dict(
+  text="Deductive proof of the sentinel protocol over all evaluators: every loop form consumes break/continue on every exit (err != ErrBreak && err != ErrContinue), passes return up, expression evaluators never leave a sentinel "
+       "(so a sentinel can only originate from a statement list), helper errors (conversion, env, strconv) are never sentinels, the sentinels are distinct non-nil values (global invariant proved at the exit of the package initialiser, "
+       "preserved because no function outside init stores to them), statements start from a clean error state, RunContext turns ErrReturn into a normal result. One known finding (runChanStmt ignores the ok-assignment error). "
+       "Not yet decided: which branch/case is selected, iteration order of for-in, that the C-for post expression runs after continue (planned via the activation trace).",
+  note=TRUST + "Assumed: VM-function protocol (a function value with the VM signature never returns a sentinel as its error); env error values are distinct objects from the vm sentinels.",
+  technique="contract-based deductive verification: sentinel-discipline postconditions and loop invariants, VCs from go/ssa, z3/cvc5",
+  ref="4 C08"),
+ 'C02': dict(
+  text="Deductive proof of the safety decomposition of cancellation with two ghost variables (polls, fired; cancellation is monotone: once a poll fired every later poll fires): runSingleStmt polls ctx.Done() before anything else and "
+       "returns ErrInterrupt without evaluating or registering anything when the context is already cancelled; every iteration of the five loop forms strictly increases polls (progress obligation on every back edge); every reflect.Select "
+       "(channel send, receive, range) has the ctx.Done() receive as its first case (call-site obligation) and reports ErrInterrupt when it is chosen; no expression is evaluated after a poll fired in the activation (precondition !fired on every "
+       "expression evaluator: a construct that clears an error and goes on evaluating fails it - this is how the ?? defect was found and repaired); a fired poll always surfaces as a real (non-sentinel) error of the activation and through the VM-function protocol of callers. "
+       "Liveness itself (bounded reaction time) is the meta-argument over these obligations; no timing or scheduling is explored.",
+  note=TRUST + "Assumed: VM-function protocol for host functions with the VM signature; time inside one host call is outside; the message of the error is not tracked through newError (only error-ness).",
+  technique="contract-based deductive verification: ghost poll counter with progress obligations, call-site obligations on reflect.Select, z3/cvc5",
+  ref="4 C02"),
+ 'C09': dict(
+  text="Deductive proof of the deferred-call bookkeeping: runDefers preserves the invocation's result value, clears the list before running it (a deferred call cannot re-run it), keeps a real body error in preference to a deferred one and otherwise reports the first deferred error "
+       "(loop invariants over the local rv/err), callDeferredFunc changes only err; newError/newStringError results are non-nil *vm.Error values; recoverFunc leaves err alone when nothing panicked. runTryStmt/runDeferStmt are covered for scope, sentinel and cancellation discipline (C04/C08/C02). "
+       "Not yet decided: catch/finally sequencing, LIFO order and exactly-once of the deferred calls (planned via the activation trace).",
+  note=TRUST + "Assumed: VM-function protocol; reflect.Value.Call semantics.",
+  technique="contract-based deductive verification: loop invariants over the deferred-call runner, VCs from go/ssa, z3/cvc5",
+  ref="4 C09"),
  'C12': dict(
   text="Deductive proof, for all arguments and all heaps, that every method of env.Env meets a contract written over the abstract view 'chain of dictionaries': "
        "recursive spec functions foundV/lookupV/nearest/foundT/lookupT/rootOf (heap-reading, unfolded one step per activation) define nearest-binding lookup with the external lookup "
